@@ -119,7 +119,8 @@ var pathSpecs = []gTy{
 }
 
 var safeWords = []string{"name", "title", "barId", "accountId", "count", "flag", "kind", "note", "amount", "when", "owner", "parentRef", "itemCode", "labelText", "weight", "extra", "tag", "memo", "score", "level"}
-var awkwardWords = []string{"fooID", "a1b", "HTTPServer", "x2", "userURL", "v2Id"}
+// single-word names with capitals (ID, URL, Label): the proto name has no underscore and the JSON name still differs (seeded C05-E)
+var awkwardWords = []string{"fooID", "a1b", "HTTPServer", "x2", "userURL", "v2Id", "ID", "URL", "Label"}
 var nouns = []string{"Thing", "Widget", "Order", "Invoice", "Gadget", "Parcel", "Ticket", "Ledger"}
 var pkgNames = []string{"foo.v1", "bar.v2", "acme.billing.v1", "shop.v3", "zed.v10"}
 
@@ -127,11 +128,14 @@ type gctx struct {
 	r        *vh.Rand
 	schemas  []gSchema
 	awkward  bool
+	clash    string // set when a property was given an enum default filter that names no option
 	decorate bool // descriptions and validation rules with characters that need escaping (C05)
 	inline   bool // inline nested objects / oneofs / enums, optional and required marks
 }
 
-var keywordNames = []string{"option", "optional", "repeated", "message", "enum", "oneof", "string", "bool", "int32", "bytes", "stream", "map", "service"}
+// ("service" is not in the list: object service collides with the sub-package <pkg>.service, a compile error)
+var keywordNames = []string{"option", "optional", "repeated", "message", "enum", "oneof", "string", "bool", "int32", "bytes", "stream", "map",
+	"group", "extend", "reserved", "required", "extensions", "double"}
 
 var descPool = []string{"Plain words.", "With \"double quotes\" inside", "back\\slash and 'single'", "unicode é ü 漢字 😀", "slashes // and /* stars */", "colon: semi; brace { } [ ]",
 	"ends with backslash \\", "percent %s %d and tab-free", "a = b, c <d> &e", "x"}
@@ -303,10 +307,56 @@ func (g *gctx) props(n int) []gProp {
 			pr.Mark = "?" // an optional array / map (NOTICE-4: proto3_optional on a repeated field)
 		}
 		g.decorateProp(&pr)
+		g.listRules(&pr)
 		out = append(out, pr)
 	}
 	return out
 }
+
+// listRules: filtering / sorting / searching constraints as buildListRequest reads them (the property's
+// quantifier names list methods with filterable, sortable and searchable fields)
+func (g *gctx) listRules(p *gProp) {
+	if g.decorate || p.Ty.Inline != nil || !g.r.Chance(30) {
+		return
+	}
+	has := func(prefix string) bool {
+		for _, a := range p.Attrs {
+			if strings.HasPrefix(a, prefix) {
+				return true
+			}
+		}
+		return false
+	}
+	if has("listRules.") {
+		return
+	}
+	switch p.Ty.Kind {
+	case "float", "integer", "timestamp":
+		p.Attrs = append(p.Attrs, "listRules.sorting.sortable = true")
+		if g.r.Chance(50) {
+			p.Attrs = append(p.Attrs, "listRules.filtering.filterable = true")
+		}
+		if g.r.Chance(20) {
+			p.Attrs = append(p.Attrs, "listRules.sorting.defaultSort = true")
+		}
+	case "string":
+		p.Attrs = append(p.Attrs, "listRules.searching.searchable = true")
+	case "key":
+		p.Attrs = append(p.Attrs, "listRules.filtering.filterable = true")
+	case "enum":
+		if strings.HasPrefix(p.Ty.Ref, "Kind") {
+			def := `["ALPHA"]`
+			if g.clash == "" && g.r.Chance(4) {
+				def = `["NOPE"]` // names no option: the compiler accepts it, buildListRequest does not (NOTICE-4 style class)
+				g.clash = "enumdefault"
+			}
+			p.Attrs = append(p.Attrs, "listRules.filtering.filterable = true", "listRules.filtering.defaultFilters = "+def)
+		}
+	}
+}
+
+// forcedClash: when >= 0, the next generated package takes this arm of the rare-class switch (0 case, 1 split, 2 enumdefault)
+var forcedClash = -1
 
 func genPackage(r *vh.Rand, awkward bool) *gPackage { return genPackageOpt(r, awkward, false) }
 
@@ -400,7 +450,21 @@ func genPackageOpt(r *vh.Rand, awkward, decorate bool) *gPackage {
 		}
 	}
 	// rare: names the compiler accepts and a later stage cannot take (NOTICE-4; recorded as known findings)
-	switch r.Intn(50) {
+	pickClash := r.Intn(50)
+	if forcedClash >= 0 { // the chain stream forces each class once per run so that no class depends on luck
+		pickClash, forcedClash = forcedClash, -1
+	}
+	defItem := false
+	switch pickClash {
+	case 2: // an enum field whose default filter names no option, in the item object of a list method
+		g.schemas = append(g.schemas,
+			gSchema{Name: "DefKind", Kind: "enum"},
+			gSchema{Name: "DefItem", Kind: "object", Props: []gProp{
+				{Name: "state", Ty: gTy{Kind: "enum", Ref: "DefKind"}, Attrs: []string{"listRules.filtering.filterable = true", `listRules.filtering.defaultFilters = ["NOPE"]`}},
+				{Name: "rank", Ty: gTy{Kind: "integer", Spec: "integer:INT32"}, Attrs: []string{"listRules.sorting.sortable = true"}},
+			}})
+		p.Clash = "enumdefault"
+		defItem = true
 	case 0: // enum options that differ only in case: protodesc / protocompile reject the camel-case conflict
 		g.schemas = append(g.schemas, gSchema{Name: "CaseClash", Kind: "enum", Props: []gProp{{Name: "@Active"}, {Name: "@ACTIVE"}}})
 		g.schemas[0].Props = append(g.schemas[0].Props, gProp{Name: "clashKind", Ty: gTy{Kind: "enum", Ref: "CaseClash"}})
@@ -428,6 +492,13 @@ func genPackageOpt(r *vh.Rand, awkward, decorate bool) *gPackage {
 			sv.Methods = append(sv.Methods, g.method(noun, k))
 		}
 		p.Services = append(p.Services, sv)
+	}
+	if defItem {
+		item := gTy{Kind: "object", Ref: "DefItem"}
+		sv := &p.Services[0]
+		sv.Methods = append(sv.Methods, gMethod{Name: "Get" + sv.Name + "Defaults", Verb: "GET", List: true, Path: "/defaults",
+			Req: []gProp{{Name: "page", Ty: gTy{Kind: "object", Ref: "j5.list.v1.PageRequest"}}, {Name: "query", Ty: gTy{Kind: "object", Ref: "j5.list.v1.QueryRequest"}}},
+			Resp: []gProp{{Name: "items", Ty: gTy{Kind: "array", Item: &item}}, {Name: "page", Ty: gTy{Kind: "object", Ref: "j5.list.v1.PageResponse"}}}})
 	}
 	if p.FlatHost != "" {
 		// the host is reached through a reference from a response (it is not itself a request / response root)
@@ -458,6 +529,9 @@ func genPackageOpt(r *vh.Rand, awkward, decorate bool) *gPackage {
 	if r.Chance(25) {
 		noun := vh.Pick(r, []string{"Account", "Shipment", "Policy"})
 		p.Entity = &gEntity{Name: noun, Data: g.props(r.Range(1, 3))}
+	}
+	if p.Clash == "" && g.clash != "" {
+		p.Clash = g.clash
 	}
 	return p
 }
